@@ -1929,6 +1929,30 @@ pub fn f19() -> Vec<Case> {
         c.raw = Some(typed.replace(&needle, &format!(":= {spell};")));
         out.push(c);
     }
+    // arithmetic on two untyped literals is a constant and takes the type of its target, like the
+    // literal of its value does (was: a DINT/LREAL stored in the narrower variable)
+    {
+        let p = prog(
+            vec![Decl::new("i", Ty::Int), Decl::new("s", Ty::SInt), Decl::init("u", int(Ty::UInt, 16)), Decl::new("r", Ty::Real), Decl::new("k", Ty::Int)],
+            vec![
+                assign("i", lit(int(Ty::Int, 3))),
+                assign("s", lit(int(Ty::SInt, -4))),
+                assign("r", lit(V::R(3.5))),
+                assign("k", bin(Op::Add, var("k"), var("i"))),
+            ],
+        );
+        let typed = super::ast::print(&p);
+        let swaps = [("INT#3;", "1 + 2;"), ("SINT#-4;", "2 - 6;"), ("UINT#16;", "2 * 8;"), ("REAL#3.5;", "1.5 + 2.0;")];
+        if swaps.iter().all(|(n, _)| typed.matches(&format!(":= {n}")).count() == 1) {
+            let mut text = typed.clone();
+            for (n, s) in swaps {
+                text = text.replace(&format!(":= {n}"), &format!(":= {s}"));
+            }
+            let mut c = case("F19", "constant-expression:two-untyped-literals".to_string(), p, 3, true);
+            c.raw = Some(text);
+            out.push(c);
+        }
+    }
     out.push(raw(
         "F19",
         "en-false:then-call-through-using",
